@@ -19,6 +19,8 @@
 //!              SpendableOutputs + on-chain fees + value taken by the counterparty = A's entitlement at closure.
 #[path = "c06/bump.rs"]
 mod bump;
+#[path = "c06/pkgtrace.rs"]
+mod pkgtrace;
 use bitcoin::{OutPoint, Transaction, TxOut, Txid};
 use ldk_verif_harness::common::*;
 use ldk_verif_harness::sim::{silence_stdout, Net};
@@ -109,6 +111,7 @@ fn draw_cfgs(rng: &mut Rng, anchors: bool) -> (lightning::util::config::UserConf
 fn close_scenario(seed: u64, thorough: bool) -> Result<Outcome, String> {
 	use lightning::sign::OutputSpender;
 	let mut rng = Rng::new(seed);
+	pkgtrace::enable();      // package-layer differential (shared with c06justice): every update_claims_view_from_matched_txn call / aggregation of BOTH monitors is recorded
 	let mut out = Outcome { ops: vec![], class: String::new(), oracle: vec![], est_kind: String::new() };
 	// A's channel is closed by A's own latest commitment or by the counterparty's, on legacy AND anchor channels; on anchor channels
 	// the closer's claims need external funding: BumpTransaction events of BOTH nodes go to their BumpTransactionEventHandler + test wallet
@@ -126,11 +129,13 @@ fn close_scenario(seed: u64, thorough: bool) -> Result<Outcome, String> {
 	let multi = mrng.chance(1, 6);
 	let (anchors, auto) = if multi { (false, false) } else { (anchors, auto) };
 	if multi { holder_close = false; }
-	// (`multi`: the fee estimator stays <= MULTI_EST_CAP sat/kw and the same-expiry HTLCs are >= 5000 sat.  The request that is left over after a split keeps
+	// (`multi`: the fee estimator stays <= `multi_est_cap` = 2500 sat/kw and the same-expiry HTLCs are >= 5000 sat.  The request that is left over after a split keeps
 	// the `feerate_previous` of the AGGREGATED claim — up to half of the aggregated value over the aggregated weight — and every later claim of it must pay
 	// 25% more than that: with the estimator at 60_000 sat/kw a small left-over output can never be claimed again, generate_claim returns None at every
 	// block and A's balance never drains.  Reported to the integrator as a candidate finding with its inputs; not generated here)
-	const MULTI_EST_CAP: u32 = 2_500;
+	// (C07_MULTI_NOCAP=1 lifts both limits: reproduces that input)
+	let multi_nocap = std::env::var("C07_MULTI_NOCAP").is_ok();
+	let multi_est_cap: u32 = if multi_nocap { 60_000 } else { 2_500 };
 	let (cfg_a, cfg_b, d_a, d_b) = draw_cfgs(&mut rng, anchors);
 	let mut net = std::mem::ManuallyDrop::new(Net::new(2, vec![Some(cfg_a), Some(cfg_b)]));   // never dropped: skips Node::drop's end-of-test assertions (half-finished scenario by design)
 	{	// block-delivery style from the scenario seed (create_network draws it from a per-process RandomState otherwise)
@@ -175,7 +180,7 @@ fn close_scenario(seed: u64, thorough: bool) -> Result<Outcome, String> {
 	if multi {
 		let n_same = mrng.range(3, 5);
 		let delta = 42 + mrng.below(50) as u32;
-		for _ in 0..n_same { if let Ok(p) = net.send(&[0, 1], &[c], mrng.range(5_000_000, 30_000_000), delta) { multi_pays.push(p); } net.settle(40); }
+		for _ in 0..n_same { if let Ok(p) = net.send(&[0, 1], &[c], mrng.range(if multi_nocap { 1_000_000 } else { 5_000_000 }, 30_000_000), delta) { multi_pays.push(p); } net.settle(40); }
 		if multi_pays.len() < 3 { return Err("multi: fewer than 3 same-expiry HTLCs".into()); }
 	}
 	// receivers learn some preimages BEFORE the close (their fulfil messages are NOT delivered: the HTLCs stay in the commitments), some at a
@@ -415,14 +420,16 @@ fn close_scenario(seed: u64, thorough: bool) -> Result<Outcome, String> {
 	let mut multi_state: u8 = if multi && multi_ops.len() >= 2 { 0 } else { 2 };
 	let mut multi_split: Option<usize> = None;
 	let mut a_bcast_seen = 0usize;
-	// (a node that is told the new best block BEFORE the block's transactions may issue a timer bump / release a parked claim without having seen what
-	// that block spends: for these delivery styles only spends of EARLIER blocks count below)
-	let a_best_block_first = matches!(*net.nodes[a].connect_style.borrow(), ConnectStyle::BestBlockFirst | ConnectStyle::BestBlockFirstSkippingBlocks | ConnectStyle::BestBlockFirstReorgsOnlyTip);
+	// (a node that is told the new height BEFORE the block's transactions — the BestBlockFirst styles, and ReplayedFullBlockViaListen, which delivers an
+	// empty filtered block of that height first — may issue a timer bump / release a parked claim without having seen what that block spends: for these
+	// delivery styles only spends of EARLIER blocks count below)
+	let a_best_block_first = matches!(*net.nodes[a].connect_style.borrow(), ConnectStyle::BestBlockFirst | ConnectStyle::BestBlockFirstSkippingBlocks | ConnectStyle::BestBlockFirstReorgsOnlyTip | ConnectStyle::ReplayedFullBlockViaListen);
+	if std::env::var("C07_CLOSE_SEED").is_ok() { eprintln!("A's block delivery style in this scenario: {:?}; same-block multi-claim mode: {}", *net.nodes[a].connect_style.borrow(), multi); }
 	let mut n_double = 0u32;
 	for _round in 0..rounds {
 		if multi_state == 0 && net.nodes[a].best_block_info().1 > multi_cltv + 3 { multi_state = 2; }      // (A's aggregated claim never showed up: give up holding back)
 		// the fee estimator follows a scripted trajectory (falling / rising / oscillating / random walk / spike-then-crash / constant)
-		if rng.chance(1, 4) { let v = fee_traj.next(&mut rng).min(if multi { MULTI_EST_CAP } else { 60_000 }); *net.nodes[a].fee_estimator.sat_per_kw.lock().unwrap() = v; }
+		if rng.chance(1, 4) { let v = fee_traj.next(&mut rng).min(if multi { multi_est_cap } else { 60_000 }); *net.nodes[a].fee_estimator.sat_per_kw.lock().unwrap() = v; }
 		let h = net.nodes[a].best_block_info().1;
 		// ---- a preimage learned only now, `k` blocks after the closing commitment confirmed ----------------------------------------
 		let due_now: Vec<usize> = late.iter().filter(|(_, k)| close_h + *k == h).map(|(p, _)| *p).collect();
@@ -607,8 +614,13 @@ fn close_scenario(seed: u64, thorough: bool) -> Result<Outcome, String> {
 	out.est_kind = format!("{};delays:{};spent:{};mpp-sent:{};same-hash-inbound-outputs:{};late-preimages:{};late-refused:{};cp-commitment:{};release-ops:{};reissue-ops:{};closed-by:{};obs-claims-of-outputs-already-spent-on-chain:{}", out.est_kind, if d_a > d_b { "A>B" } else { "A<B" }, n_spent_descriptors.min(9), n_mpp.min(3), dup_in, n_late.min(4), n_late_refused.min(3), if holder_close { "-" } else if cp_prev { "previous" } else { "current" }, n_release.min(3), n_sched.min(3), if auto { "monitor-deadline" } else { "force_close" }, n_respend.min(3));
 	// (`multi`) how many of B's HTLC-success transactions split A's aggregated claim in ONE block, of how many same-expiry HTLCs ("not-reached": A's aggregated claim never came out)
 	out.est_kind = format!("{};same-block-multi-claim:{}", out.est_kind, if !multi { "-".to_string() } else { match multi_split { Some(n) => format!("{}-of-{}", n.min(9), multi_pays.len()), None => "not-reached".to_string() } });
+	// … and the translated package_weight against the real weight of every self-funded claim A broadcast (after the trace has been read: it names the input kinds)
+	let pkg_cases = pkgtrace::cases();
+	{ let mut seen = BTreeSet::new(); for t in a_history.iter() { if seen.insert(t.compute_txid()) { if let Some(c) = pkgtrace::weight_case(t, anchors) { out.ops.push(c); } } } }
 	let _ = (item_state, a_history);
 	drain(&net);
+	// the package layer (Model/Packages.lean): real handler state before each call -> model -> real state after it (stateless ops, any position)
+	for (op, res, cl) in pkg_cases { out.ops.push((op, res, cl)); }
 	Ok(out)
 }
 
